@@ -22,7 +22,10 @@ META = {
                   "(ordered) field of coordinates, after sixteen fix: commits: a copy equals its source, uses fresh buffers and "
                   "stays isolated from it under any later history of writes; merge concatenates the vertices, shifts the "
                   "indices of input k by the running vertex count, takes the largest dimensionality and uses fresh, pairwise "
-                  "distinct buffers even when one mesh is merged twice; 'no two vertex ids share a buffer' is an invariant of "
+                  "distinct buffers even when one mesh is merged twice (also in closed form: an element of the result is an element "
+                  "of input k moved by the number of vertices of the inputs before k and conversely, vertex v of input k is vertex "
+                  "count+v of the result); a transform or an edit through one object leaves the whole record of every other object "
+                  "(slots, elements, corner tables, attributes, class) and everything of its own target but the vertex slots; 'no two vertex ids share a buffer' is an invariant of "
                   "all histories (ring, from_arrays, copy, merge proved from their regenerated structure, producers outside "
                   "the anchors as a stated per-producer hypothesis that every run tests); every transform then maps every "
                   "vertex exactly once by the requested map and leaves every other buffer alone; translate/scale/rotate "
